@@ -40,8 +40,18 @@ def run(ctx):
             # the worker gives up after maxRetries = 10 refusals of one request (300 s): the connection closes itself
             [{"a": "write", "n": 10}] + [{"a": "refuse", "n": 503}] * 10 + [{"a": "pause", "n": 10 * 30000 + 1500}],
         ]
+    # the server delimits its bodies the way net/http does when a handler does not set a length (chunked), or by closing
+    framed = []
+    for fr in ("chunked", "close"):
+        framed.append((fr, [{"a": "write", "n": 100}, {"a": "respond", "n": 10}, {"a": "read", "n": 0}, {"a": "respond", "n": 3000}, {"a": "read", "n": 0},
+                            {"a": "write", "n": 70000}, {"a": "respond", "n": 65536}, {"a": "respond", "n": 0}, {"a": "respond", "n": 1}, {"a": "read", "n": 0}]))
+    # Close while the server keeps sending data with every poll: polling must stop all the same
+    flood = [{"a": "write", "n": 1}, {"a": "respond", "n": 10}, {"a": "read", "n": 0}, {"a": "respond", "n": 10}, {"a": "close", "n": 0}] + [{"a": "respond", "n": 10}] * 600
     for i, st in enumerate(refuse):
         scen.append({"id": "refuse%d" % i, "steps": st, "front": i % 2 == 1, "src": "refusal"})
+    for i, (fr, st) in enumerate(framed):
+        scen.append({"id": "framed%d" % i, "steps": st, "front": False, "src": "framing", "framing": fr})
+    scen.append({"id": "closeflood", "steps": flood, "front": False, "src": "close-during-download"})
     for _n, hist in sims:
         key = json.dumps(hist)
         if key in seen or len(hist) < 3:
@@ -74,7 +84,7 @@ def run(ctx):
                 steps.append({"a": "read", "n": 0})
             else:
                 steps.append({"a": "close", "n": 0})
-        scen.append({"id": "rnd%d" % i, "steps": steps, "front": False, "src": "random"})
+        scen.append({"id": "rnd%d" % i, "steps": steps, "front": False, "src": "random", "framing": ("", "chunked", "close")[i % 3]})
     # many small writes while a response is held: channel backlog (16) and coalescing up to the body cap
     for i, (k, n) in enumerate([(40, 1), (20, 5000), (17, 65536), (3, 200000)]):
         scen.append({"id": "burst%d" % i, "steps": [{"a": "write", "n": n}] * k + [{"a": "respond", "n": 10}] * 3, "front": False, "src": "burst"})
